@@ -406,6 +406,46 @@ def main(argv):
                 bad = True
             if bad or sorted(got) != sorted(recs):
                 c.violation("warc-exactly-once: warc_parallel -j %d on %d records: status %s, %d records out, multiset differs" % (jobs_n, nrec, st, len(got)), desc)
+        # several --inputs files of UNEQUAL length = several producers on the bounded queue, one of which finishes
+        # early: the end markers may only be queued after ALL readers are done (otherwise the workers leave while a
+        # reader is still producing and it blocks forever on the full queue)
+        import tempfile
+        import shutil
+        base = os.path.dirname(BUILD_ROOT.rstrip("/")) if BUILD_ROOT.startswith("/var/tmp/") else "/var/tmp"
+        tdir = tempfile.mkdtemp(prefix="scratch-c16-", dir=base)
+        try:
+            def mkrec(tag, i):
+                body = (b"%s body %d " % (tag, i)) * (i % 9 + 1) + (b"Z" * 3000 if i % 11 == 0 else b"")
+                return b"WARC/1.0\r\nWARC-Type: response\r\nX-Id: %s-%d\r\nContent-Length: %d\r\n\r\n" % (tag, i, len(body)) + body + b"\r\n\r\n"
+            for jobs_n, sizes in ((1, (2, 300)), (2, (3, 400)), (3, (1, 500)), (2, (400, 3)), (3, (0, 200)), (2, (5, 250, 40))):
+                files, recs = [], []
+                for fi, nrec in enumerate(sizes):
+                    rs = [mkrec(b"f%d" % fi, i) for i in range(nrec)]
+                    recs += rs
+                    fn = os.path.join(tdir, "in%d-%d.warc" % (jobs_n, fi))
+                    with open(fn, "wb") as fh:
+                        fh.write(b"".join(rs))
+                    files.append(fn)
+                c.count(("warc_parallel-inputs", jobs_n, sizes), bucket="warc_parallel")
+                desc = {"tool": "warc_parallel -j %d -i <files> -- cat" % jobs_n, "records_per_input_file": list(sizes),
+                        "how": "input files of %s synthetic WARC records (X-Id: f<file>-<i>); warc_parallel -j %d -i f0 f1 .. -- cat" % (list(sizes), jobs_n)}
+                st, out, err = run_tool([repo_bin("warc_parallel"), "-j", str(jobs_n), "-i"] + files + ["--", "cat"], b"", timeout=20 if c.tier == "quick" else 60)
+                if st == "timeout":
+                    c.violation("warc-hang: warc_parallel -j %d with input files of %s records did not terminate (end markers queued before all readers were done)" % (jobs_n, list(sizes)), desc)
+                    continue
+                got, pos, bad = [], 0, st != 0
+                try:
+                    while pos < len(out):
+                        h = out.index(b"\r\n\r\n", pos)
+                        n = int(re.search(rb"Content-Length: (\d+)", out[pos:h]).group(1))
+                        got.append(out[pos:h + 4 + n + 4])
+                        pos = h + 4 + n + 4
+                except Exception:
+                    bad = True
+                if bad or sorted(got) != sorted(recs):
+                    c.violation("warc-exactly-once: warc_parallel -j %d on input files of %s records: status %s, %d records out of %d, multiset differs" % (jobs_n, list(sizes), st, len(got), len(recs)), desc)
+        finally:
+            shutil.rmtree(tdir, ignore_errors=True)
     # --- thorough: the unbounded queue inside a real wrapper under TSan (its consumer-side Empty() is used by foldfilter)
     if c.tier == "thorough":
         ok, blog = build_repo(["foldfilter"], flavour="tsan")
